@@ -42,7 +42,8 @@ def run_ort(model, feeds, session=None):
         except Exception as e:  # noqa: BLE001
             raise RunError("load", str(e)[:500]) from None
     # overridable initializers (initializers that are also graph inputs) are not listed by get_inputs()
-    names = {i.name for i in session.get_inputs()} | {i.name for i in session.get_overridable_initializers()}
+    names = {i.name for i in session.get_inputs()} | {
+        i.name for i in getattr(session, "get_overridable_initializers", lambda: [])()}
     try:
         return session.run(None, {k: v for k, v in feeds.items() if k in names})
     except Exception as e:  # noqa: BLE001
